@@ -5,7 +5,7 @@
     (p a.. l1..ln)); [eval_expr], [apply_proc] are the trampolined evaluator of the model.
     [noF r] says the model did not run out of fuel. *)
 From Coq Require Import List.
-From RV Require Import Model.Common Model.Ast Model.Value Model.Eval Spec.EvalSpec Proofs.EvalProofs.
+From RV Require Import Model.Common Model.Ast Model.Value Model.Eval Spec.EvalSpec Proofs.EvalProofs Proofs.FuelProofs.
 Import ListNotations.
 
 (** whatever the evaluator returns for an expression - value, error or panic, and the state -
@@ -29,3 +29,28 @@ Proof. exact (fun fuel => s_proc fuel (sound_all fuel)). Qed.
 Theorem C01_tail_sound : forall fuel e env st r st',
   eval_tail fuel e env st = (r, st') -> noF r -> tail_ok e env st r st'.
 Proof. exact (fun fuel => s_tail fuel (sound_all fuel)). Qed.
+
+(** the converse: a value the rules assign is the value (and final state) the evaluator returns, for
+    every sufficiently large fuel - nothing the rules define is missed by the trampoline *)
+Theorem C01_eval_complete : forall st env e v st',
+  ev st env e (Ok v) st' -> exists n, forall fuel, n <= fuel -> eval_expr fuel e env st = (Ok v, st').
+Proof. exact ev_complete. Qed.
+
+Theorem C01_apply_complete : forall st p args v st' env,
+  app st p args (Ok v) st' -> exists n, forall fuel, n <= fuel -> apply_proc fuel p args env st = (Ok v, st').
+Proof. exact app_complete. Qed.
+
+(** the fuel of the model is not observable: an answer that is not a timeout stays the same with more fuel *)
+Theorem C01_fuel_irrelevant : forall fuel fuel' e env st r st', fuel <= fuel' ->
+  eval_expr fuel e env st = (r, st') -> noF r -> eval_expr fuel' e env st = (r, st').
+Proof. exact eval_expr_mono. Qed.
+
+(** the rules assign at most one value and final state to an expression, and whatever the evaluator
+    answers (short of a timeout) where the rules assign a value is that value *)
+Theorem C01_value_unique : forall st env e v st' v2 st2,
+  ev st env e (Ok v) st' -> ev st env e (Ok v2) st2 -> v = v2 /\ st' = st2.
+Proof. exact ev_value_unique. Qed.
+
+Theorem C01_decided_by_rules : forall fuel e env st r st1 v st',
+  eval_expr fuel e env st = (r, st1) -> noF r -> ev st env e (Ok v) st' -> r = Ok v /\ st1 = st'.
+Proof. exact eval_decided_by_rules. Qed.
